@@ -132,8 +132,21 @@ func runC35(c *core.Ctx) {
 			getObj = gus
 		}
 		puts := ir.CallsTo(fn, psc)
+		sinkSites := puts
+		if len(puts) == 0 {
+			// the registry write (and the request delete) may stand in a private commit helper: the gates dominate
+			// the helper's call site, and the object is checked at the PutSideChain inside it (parameters bound)
+			sinkSites = ir.CallsThrough(fn, func(ci ssa.CallInstruction) bool { return ir.CalleeIs(ci, psc) }, 1)
+			for _, site := range sinkSites {
+				if h := site.Common().StaticCallee(); h != nil && h.Pkg == fn.Pkg {
+					defer ir.BindParams(h, site.Common().Args)()
+					c.Attribute(h, fn)
+					puts = append(puts, ir.CallsTo(h, psc)...)
+				}
+			}
+		}
 		c.Floor("PutSideChain in "+x.name, len(puts), 1)
-		sinks := ir.CallSinks(puts, "PutSideChain")
+		sinks := ir.CallSinks(sinkSites, "PutSideChain")
 		for _, g := range []eng.NamedGuard{
 			{Name: "request getter err==nil", G: ir.ErrNil(and(ir.CallTo(getObj), idArg("Chainid")))},
 			{Name: "request getter != nil", G: ir.NotNil(and(ir.CallTo(getObj), idArg("Chainid")))},
